@@ -30,7 +30,7 @@ CHECKS["C15"] = dict(level="model_checking", design="5 C15",
 
 CHECKS["C18"] = dict(level="model_checking", design="5 C18",
    text="In spec/Store.tla a scan returns the view captured at its start (rowStore.iterate under the read lock); the real database is driven with scans held after their j-th row while further inserts, row-store applies and flush steps are pushed through the scheduler gates (TLC-simulated interleavings plus directed placements into delivered, undelivered and new rows), and the held scan's result is bound by trace validation to the view the specification captured at its start.",
-   note="The scan is held by blocking its row callback after flat row j = 1..4; inserts during the scan are confirmed applied (rs.apply) before the scan is released. A free-running part (zvkill -mode free) runs scans concurrently with inserts and 1-3 ms timer flushes: every result must be exactly the content of a prefix of the stream.",
+   note="The scan is held by blocking its row callback after flat row j = 1..4; inserts during the scan are confirmed applied (rs.apply) before the scan is released. A free-running part (zvkill -mode free) runs scans concurrently with inserts and 1-3 ms timer flushes: every result must be exactly the content of a prefix of the stream; the hook events of those processes are validated against spec/TracePipe.tla (every scan takes the file store installed at that moment, between complete flush steps).",
    technique="TLA+ trace validation (TLC) of gate-scheduled executions of the real code + TLC-simulated interleavings")
 
 CHECKS["C04"] = dict(level="model_checking", design="5 C04",
